@@ -139,6 +139,57 @@ def run_case(report, drv, store, evs, now, tag):
     report.count("removed_" + store.backend, len(removed))
 
 
+def two_pass_case(report, drv, store, rng, tag):
+    """a long-lived collector (as in the running relay) makes two passes; between them events arrive, some of which
+    had already expired before the first pass (late arrival), some expire between the passes, some later"""
+    store.reset()
+    coll = store.new_collector()
+    now1, now2 = T - 1000, T
+    by_id, evs_all = {}, []
+    lines = [{"op": "kv.reset"}] if store.backend == "kv" else [{"op": "sql.reset"}]
+
+    def add(evs):
+        for n in evs:
+            store.add(n)
+            by_id.setdefault(n["id"], n)
+            evs_all.append(n)
+            me = model_event(n)
+            if store.backend == "kv":
+                lines.append({"op": "kv.task", "task": {"t": "add", "ev": me}})
+            else:
+                lines.append({"op": "sql.add", "ev": me})
+
+    def mk(i, exp):
+        e = gen.gen_event(rng, authors=AUTH, kinds=[1, 7], times=[gen.T0 - 5000 + i])
+        e["tags"] = [] if exp is None else [["expiration", str(exp)]]
+        e["id"] = "%02x" % i + e["id"][2:]
+        return e
+
+    first = [mk(i, rng.choice([now1 - 500, now1 - 1, now1, now1 + 1, now1 + 400, now2 + 50, None])) for i in range(rng.randint(2, 6))]
+    add(first)
+    store.gc(now1, coll)
+    mid = set(store.ids())
+    second = [mk(20 + i, rng.choice([now1 - 700, now1 - 2, now1, now1 + 3, now2 - 1, now2, now2 + 1, None])) for i in range(rng.randint(2, 6))]
+    add(second)
+    store.gc(now2, coll)
+    after = set(store.ids())
+    payload = {"backend": store.backend, "first": first, "pass1": now1, "second": second, "pass2": now2}
+    for n in first:
+        if should_collect(n, now1) and n["id"] in mid:
+            report.property_failure("%s: pass at %d kept %s.. (expiration %r)" % (store.backend, now1, n["id"][:8], expirations(n)), payload, None)
+        if not may_collect(n, now1) and n["id"] not in mid:
+            report.property_failure("%s: pass at %d removed %s.. (expiration %r)" % (store.backend, now1, n["id"][:8], expirations(n)), payload, None)
+    for n in evs_all:
+        if should_collect(n, now2) and n["id"] in after:
+            report.property_failure("%s: second pass of a long-lived collector at %d kept %s.. whose expiration %r is earlier than the pass"
+                                    % (store.backend, now2, n["id"][:8], expirations(n)), payload, None)
+        if not may_collect(n, now2) and n["id"] not in after:
+            report.property_failure("%s: second pass at %d removed %s.. (expiration %r)" % (store.backend, now2, n["id"][:8], expirations(n)), payload, None)
+    report.case((store.backend, "two-pass", tag, repr([expirations(e) for e in evs_all])), nontrivial=len(after) < len(evs_all),
+                sample={"backend": store.backend, "two_pass": True, "stored": len(evs_all), "left": len(after)})
+    report.count("two_pass_" + store.backend)
+
+
 class _KVView:
     """adapter giving props.c10.coherence_violations what it needs from a KVStore"""
 
@@ -166,7 +217,8 @@ def run(report, tier, seed):
     report.coverage["rule"] = (
         "stores of 3-14 events with kinds 1/7/19999/20000/20001/29999/30000/10002 and expiration tags T-1, T, T+1, 1, "
         "999, 11-digit far future, malformed ('1700abc', '', ' 1700000000', '-5', leading zero), two expiration tags; a "
-        "pass at T-1 / T / T+1; both backends; non-trivial = the pass removed something")
+        "pass at T-1 / T / T+1; two passes of one long-lived collector with events arriving in between (also already expired "
+        "ones); both backends; non-trivial = the pass removed something")
     report.assumptions += ["clock: `time` of the storage module replaced by a constant",
                            "LMDB: ephemeral kinds are never stored through add_event (they are only broadcast)"]
     try:
@@ -175,6 +227,9 @@ def run(report, tier, seed):
             for st in stores:
                 if st.backend == r["backend"]:
                     run_case(report, drv, st, r["events"], r["now"], "finding:" + e["id"])
+        for i in range(12 if tier == "quick" else 300):
+            for st in stores:
+                two_pass_case(report, drv, st, rng, i)
         for i in range(80 if tier == "quick" else 2000):
             evs = gen_store(rng)
             now = T + rng.choice([-1, 0, 0, 1])
